@@ -27,6 +27,7 @@ import JubakoModel.Generated.FuncsSearch
 import JubakoModel.Generated.FuncsView
 import JubakoModel.Generated.FuncsCheck
 import JubakoModel.Generated.FuncsLookup
+import JubakoModel.Generated.FuncsStats
 
 open Jubako
 
@@ -41,6 +42,11 @@ def Jubako.RawProp.toSrcD (p : RawProp) : Option Generated.SrcProperty :=
   | .content ps cs dflt => some (.contentAddress cs ps dflt p.name)
   | .array lenSize fixedLen dep _ => some (.array lenSize fixedLen dep p.name)
   | .deportedInt _ _ _ _ => none
+
+/-- the translated `Property::process` over a column (copy of `processColumn` of Lemmas/FuncsStats.lean) -/
+def processColumnD (p : Generated.SrcSchemaProp) : List Generated.SrcValue → Option Generated.SrcSchemaProp
+  | [] => some p
+  | v :: vs => (Generated.schemaPropertyProcess p v).bind (fun p' => processColumnD p' vs)
 
 def grid : List Nat :=
   [0, 1, 2, 3, 4, 37, 38, 39, 127, 128, 255, 256, 257, 4094, 4095, 4096, 65535, 65536, 65537, 16777215, 16777216,
@@ -59,6 +65,8 @@ def cmp1 {α β} [ToString α] [ToString β] [BEq β] (name : String) (inputs : 
 def ordOf (n : Nat) : Ordering := if n % 3 = 0 then .lt else if n % 3 = 1 then .eq else .gt
 
 instance : ToString RawProp := ⟨fun p => reprStr p⟩
+
+instance : ToString (Option Generated.SrcProperty) := ⟨fun p => reprStr p⟩
 
 instance : ToString Ordering := ⟨fun o => match o with | .lt => "lt" | .eq => "eq" | .gt => "gt"⟩
 
@@ -163,3 +171,24 @@ def main : IO Unit := do
   cmp1 "packSizes" small
     (fun c => (Generated.contentPackSize c 64, Generated.directoryPackSize c 64, Generated.manifestPackSize c 64, Generated.containerPackSize c 64))
     (fun c => (c + 37 + 64, c + 37 + 64, c + 37 + 64, c + 5 + 64))
+  -- column statistics end to end: Property::process over a column, then Property::finalize
+  let ucols : List (List Nat) := [[], [0], [5], [5, 5], [5, 6], [255, 255, 255], [0, 256], [65535, 65536], [16777216], [4294967296, 1],
+    [72057594037927936, 72057594037927936], [18446744073709551615, 0]]
+  cmp1 "schemaProperty(uint)" ucols
+    (fun c => (processColumnD (.unsignedInt .none (.auto 0) [120]) (c.map (fun (n : Nat) => Generated.SrcValue.unsigned (n : Int)))).map (Generated.schemaPropertyFinalize (fun _ => 0)))
+    (fun c => (finalizeProp [] ⟨[120], .uint⟩ (c.map Val.u)).toSrcD)
+  let scols : List (List Int) := [[], [0], [-1], [-1, -1], [127, -128], [128], [-129], [32767, -32768], [32768], [-8388609], [2147483648, 0],
+    [-9223372036854775808, 9223372036854775807]]
+  cmp1 "schemaProperty(sint)" scols
+    (fun c => (processColumnD (.signedInt .none (.auto 0) [121]) (c.map (fun (n : Int) => Generated.SrcValue.signed n))).map (Generated.schemaPropertyFinalize (fun _ => 0)))
+    (fun c => (finalizeProp [] ⟨[121], .sint⟩ (c.map Val.s)).toSrcD)
+  let ccols : List (List (Nat × Nat)) := [[], [(0, 0)], [(1, 5), (1, 300)], [(1, 5), (2, 5)], [(255, 16777215)], [(256, 16777216), (256, 0)]]
+  cmp1 "schemaProperty(content)" ccols
+    (fun c => (processColumnD (.contentAddress .none (.auto 0) (.auto 0) [99]) (c.map (fun (x : Nat × Nat) => Generated.SrcValue.content ((x.1 : Int), (x.2 : Int))))).map (Generated.schemaPropertyFinalize (fun _ => 0)))
+    (fun c => (finalizeProp [] ⟨[99], .content⟩ (c.map (fun x => Val.content x.1 x.2))).toSrcD)
+  let acols : List (Nat × List Nat) := [0, 1, 3, 31].flatMap fun f => [[], [0], [3], [3, 300], [255, 256], [65536]].map fun l => (f, l)
+  let st : List VStore := [⟨false, [[1, 2, 3]]⟩]
+  cmp1 "schemaProperty(array)" acols
+    (fun x => (processColumnD (.array (.auto 0) x.1 0 [97]) (x.2.map (fun (n : Nat) => Generated.SrcValue.array (n : Int)))).map
+      (Generated.schemaPropertyFinalize (fun s => (st.getD s ⟨false, []⟩).keySize)))
+    (fun x => (finalizeProp st ⟨[97], .array x.1 0⟩ (x.2.map (fun n => Val.arr (List.replicate n 7)))).toSrcD)
